@@ -40,6 +40,7 @@ __CPROVER_requires((rxv_prot & RXV_PROT_W) != 0) __CPROVER_ensures(1) __CPROVER_
 void JitCompilerX86_generateDatasetInitCode(struct JitCompilerX86* self)
 __CPROVER_requires((rxv_prot & RXV_PROT_W) != 0) __CPROVER_ensures(1) __CPROVER_assigns();
 void JitCompilerX86_setFlags(struct JitCompilerX86* self, randomx_flags f) __CPROVER_requires(1) __CPROVER_ensures(1) __CPROVER_assigns();
+#ifndef RXV_CACHE_PROT
 void rxv_execute_program(struct JitCompilerX86* self, RegisterFile* reg, MemoryRegisters* mem, uint8_t* scratchpad, uint64_t iterations)
 __CPROVER_requires((rxv_prot & RXV_PROT_X) != 0) __CPROVER_ensures(1) __CPROVER_assigns();
 void CompiledVm_execute(struct randomx_vm* self)
@@ -47,6 +48,7 @@ __CPROVER_requires((rxv_prot & RXV_PROT_X) != 0) __CPROVER_ensures(1) __CPROVER_
 void VmBase_generateProgram(struct randomx_vm* self, void* seed) __CPROVER_requires(1) __CPROVER_ensures(1) __CPROVER_assigns(self->program);
 void randomx_vm_initialize(struct randomx_vm* self) __CPROVER_requires(1) __CPROVER_ensures(1) __CPROVER_assigns(self->reg, self->mem.ma, self->mem.mx, self->config, self->datasetOffset);
 
+#endif
 /* class invariant of a VM created with the secure flag (secureJit == 1): the buffer is RW or RX, never both W and X,
    and no request for W|X is ever issued; after every public operation that generates code it is RX */
 #define RXV_SECURE_INV (rxv_prot == RXV_RW || rxv_prot == RXV_RX)
